@@ -295,6 +295,34 @@ def direct_samples(fails, rng, n, only=None):
                           "Sample(%r): activity of %s is %r, the constituents activated separately give %r"
                           % (formula, (k.isotope + " -> " + k.daughter) if k is not None else "a missing product",
                              got.get(k), want.get(k)), **where)
+            # the same sample under the IAEA abundance column of activation.dat (an optional argument of calculate_activation)
+            si = act.Sample(formula, mass)
+            ri = attempt(si.calculate_activation, env, exposure=expo, rest_times=rest, abundance=act.IAEA1987_isotopic_abundance)
+            if not isinstance(ri, BaseException):
+                wanti, badi = {}, False
+                for el, frac in _f.formula(formula).mass_fraction.items():
+                    if core.isisotope(el):
+                        partsi = [(el, mass * frac)]
+                    else:
+                        partsi = [(el[a], mass * frac * (getattr(el[a], "neutron_activation", [None])[0].abundance if getattr(el[a], "neutron_activation", ()) else 0.0) * 0.01)
+                                  for a in el.isotopes]
+                    for iso_, m_ in partsi:
+                        if not m_:
+                            continue
+                        p_ = attempt(act.activity, iso_, m_, env, expo, rest)
+                        if isinstance(p_, BaseException):
+                            badi = True
+                            break
+                        for k_, v_ in p_.items():
+                            w_ = wanti.setdefault(k_, [0.0] * len(rest))
+                            wanti[k_] = [a_ + float(b_) for a_, b_ in zip(w_, v_)]
+                goti = {k_: [float(x) for x in v_] for k_, v_ in si.activity.items()}
+                if not badi and (set(goti) != set(wanti) or any(not all(close(a_, b_, 1e-12) for a_, b_ in zip(goti[k_], wanti[k_])) for k_ in goti)):
+                    k_ = next((k_ for k_ in goti if k_ not in wanti or not all(close(a_, b_, 1e-12) for a_, b_ in zip(goti[k_], wanti[k_]))), None)
+                    fails.add("C14:sample-not-sum-of-constituents:IAEA-abundance",
+                              "Sample(%r) with abundance=IAEA1987_isotopic_abundance: activity of %s is %r, the isotopes weighted with the abundance "
+                              "column of activation.dat give %r" % (formula, (k_.isotope + " -> " + k_.daughter) if k_ is not None else "a missing product",
+                                                                    goti.get(k_), wanti.get(k_)), **where)
             s2 = act.Sample(formula, mass * 4)
             r2 = attempt(s2.calculate_activation, env, exposure=expo, rest_times=rest)
             if isinstance(r2, BaseException) or set(s2.activity) != set(s.activity) or any(
